@@ -370,7 +370,7 @@ func genC14(c *Cfg, emit func([]string)) {
 		return string(b)
 	}
 	creators := []string{"robot", "admin", "client", "client", "none", "garbage", "badpem", "nopem"}
-	acls := []string{"ok", "ok", "ok", "status", "empty", "garbled", "noaddr", "emptyaddr", "shortaddr", "badbatch"}
+	acls := []string{"ok", "ok", "ok", "status", "empty", "garbled", "noaddr", "emptyaddr", "shortaddr", "badbatch", "status503", "timeout"}
 	signers := []string{"u0", "u1", "issuer", "admin", "feeSetter"}
 	pick := func(xs []string) string { return xs[rng.Intn(len(xs))] }
 	vec := func(n int) []string {
